@@ -57,7 +57,10 @@ class Monitor:
         self.model = R.RegistryModel()
         self.nontrivial = False
         self.last_desc = None
+        self.eol = cfg.get("eol", "")  # what the transport leaves at the end of a line: nothing, LF, CR LF
         self._alpha = small_alphabet() if cfg.get("small") else alphabet(self.version, self.thorough)
+        if cfg.get("small"):
+            self._alpha = self._alpha + [[255, 255, 3, 0, 3, ""], [1, 255, 3, 0, 11, "nm"], [1, 255, 3, 0, 12, "1.1"]]
         if cfg.get("parked"):
             # the application has commands parked for node 1 (asleep): received lines must still be yielded literally
             from aiomysensors.model.message import Message
@@ -83,9 +86,18 @@ class Monitor:
             viols.append((f"C04|{k}|{tag}", f"[{v}] line {R.enc(*f)!r}: {what}", None))
 
         before = canon_nodes(self.s.gateway.nodes)
-        out = self.s.line(R.enc(*f).rstrip("\n"))
-        self.last_desc = out.describe()
         is_id_request = cmd == 3 and t == R.I_ID_REQUEST
+        at_write: list = []
+        if is_id_request:
+            gw = self.s.gateway
+            self.s.transport.on_write = lambda line: at_write.append((line, set(gw.nodes)))
+        out = self.s.line(R.enc(*f).rstrip("\n") + self.eol)
+        self.s.transport.on_write = None
+        self.last_desc = out.describe()
+        for line, reg in at_write:
+            g = line.rstrip("\n").split(";", 5)
+            if g[2] == "3" and g[4] == str(R.I_ID_RESPONSE) and R.PLAIN_INT.match(g[5]) and int(g[5]) not in reg:
+                bad("no-placeholder-when-id-handed-out", f"the answer {line!r} hands out id {g[5]} at a moment when the registry holds no node {g[5]} (registry {sorted(reg)})")
         exp = ("ok",) if is_id_request else self.model.expect(v, f)
         self.nontrivial = exp[0] != "ok"
         if exp[0] == "ok":
@@ -225,7 +237,7 @@ def run(ctx: core.Ctx) -> core.Report:
     for k in ("states", "transitions", "nontrivial_transitions"):
         tot[k] += pres[k]
     tot["violations"] += pres["violations"]
-    sres = bfs.search_many(ctx, MOD, [{"version": v, "small": True} for v in R.VERSIONS], max_depth=8 if ctx.quick else 12)
+    sres = bfs.search_many(ctx, MOD, [{"version": v, "small": True, "eol": eol} for v in R.VERSIONS for eol in ("", "\n", "\r\n")], max_depth=8 if ctx.quick else 12)
     for k in ("states", "transitions", "nontrivial_transitions"):
         tot[k] += sres[k]
     tot["per_cfg"] += sres["per_cfg"]
@@ -247,7 +259,7 @@ def run(ctx: core.Ctx) -> core.Report:
         "type_product_cases": tcount,
         "exhaustive": False,
         "distinct_nontrivial_transitions": tot["nontrivial_transitions"],
-        "rule": "all histories up to the stated depth over the alphabet; a 7-event alphabet around one node (presented child, never-presented child, never-presented node, re-presentations) to depth 8/12; every ordered pair of versions as two gateways in one process (the second must behave as if alone); plus a 6-step history for every child type x value type of each version's tables; non-trivial = a step referring to a missing node/child",
+        "rule": "all histories up to the stated depth over the alphabet; a 10-event alphabet around one node, lines ending in nothing / LF / CR LF, (presented child, never-presented child, never-presented node, re-presentations) to depth 8/12; every ordered pair of versions as two gateways in one process (the second must behave as if alone); plus a 6-step history for every child type x value type of each version's tables; non-trivial = a step referring to a missing node/child",
         "bounds": {"per_cfg": tot["per_cfg"], "alphabet_size": len(alphabet("2.2", thorough))},
         "samples": ctx.pick(tot["samples"], 3),
     }
